@@ -242,6 +242,14 @@ pub fn parse_attrs(attrs: &[syn::Attribute]) -> Attrs {
     a
 }
 
+/// every type, field, constant and static of the bindings is meant to be used from outside the module: an item
+/// that is not `pub` is recorded as an extra marker item, which the comparators report as a difference / extra item
+fn not_pub(vis: &syn::Visibility, what: &str, out: &mut Vec<Item>) {
+    if !matches!(vis, syn::Visibility::Public(_)) {
+        out.push(Item::Other { text: format!("NOT-PUB {what}") });
+    }
+}
+
 fn conv_item(it: &syn::Item, out: &mut Vec<Item>) {
     match it {
         syn::Item::Struct(s) => {
@@ -257,6 +265,10 @@ fn conv_item(it: &syn::Item, out: &mut Vec<Item>) {
                 syn::Fields::Unnamed(u) => (vec![], Some(u.unnamed.iter().map(|f| ts(&f.ty)).collect())),
                 syn::Fields::Unit => (vec![], Some(vec![])),
             };
+            not_pub(&s.vis, &format!("struct {}", s.ident), out);
+            for f in s.fields.iter() {
+                not_pub(&f.vis, &format!("field {}.{}", s.ident, f.ident.as_ref().map(|i| i.to_string()).unwrap_or_else(|| "0".into())), out);
+            }
             out.push(Item::Struct { name: s.ident.to_string(), attrs, fields, tuple });
         }
         syn::Item::Enum(e) => {
@@ -275,9 +287,13 @@ fn conv_item(it: &syn::Item, out: &mut Vec<Item>) {
                     attrs: parse_attrs(&v.attrs),
                 })
                 .collect();
+            not_pub(&e.vis, &format!("enum {}", e.ident), out);
             out.push(Item::Enum { name: e.ident.to_string(), attrs, variants });
         }
-        syn::Item::Const(c) => out.push(Item::Const { name: c.ident.to_string(), ty: ts(&c.ty), init: ts(&c.expr) }),
+        syn::Item::Const(c) => {
+            not_pub(&c.vis, &format!("const {}", c.ident), out);
+            out.push(Item::Const { name: c.ident.to_string(), ty: ts(&c.ty), init: ts(&c.expr) })
+        }
         syn::Item::Static(s) => {
             // static X: LazyLock<T> = LazyLock::new(|| v);
             let ty = ts(&s.ty);
@@ -287,6 +303,7 @@ fn conv_item(it: &syn::Item, out: &mut Vec<Item>) {
             } else {
                 (ty, init, "plain".to_string())
             };
+            not_pub(&s.vis, &format!("static {}", s.ident), out);
             out.push(Item::Static { name: s.ident.to_string(), ty: ty2, init: init2, lazy });
         }
         syn::Item::Fn(f) => out.push(Item::Fn {
@@ -306,13 +323,13 @@ fn conv_item(it: &syn::Item, out: &mut Vec<Item>) {
         syn::Item::Macro(m) if ts(&m.mac.path) == "lazy_static" => {
             // lazy_static! { #[doc..] pub static ref X: T = v; }
             #[allow(dead_code)]
-            struct Ls(Vec<(String, String, String)>);
+            struct Ls(Vec<(String, String, String, bool)>);
             impl syn::parse::Parse for Ls {
                 fn parse(input: syn::parse::ParseStream) -> syn::Result<Self> {
                     let mut v = vec![];
                     while !input.is_empty() {
                         let _ = input.call(syn::Attribute::parse_outer)?;
-                        let _: syn::Visibility = input.parse()?;
+                        let vis: syn::Visibility = input.parse()?;
                         let _: syn::Token![static] = input.parse()?;
                         let _: syn::Token![ref] = input.parse()?;
                         let id: syn::Ident = input.parse()?;
@@ -321,14 +338,17 @@ fn conv_item(it: &syn::Item, out: &mut Vec<Item>) {
                         let _: syn::Token![=] = input.parse()?;
                         let e: syn::Expr = input.parse()?;
                         let _: syn::Token![;] = input.parse()?;
-                        v.push((id.to_string(), ts(&ty), ts(&e)));
+                        v.push((id.to_string(), ts(&ty), ts(&e), matches!(vis, syn::Visibility::Public(_))));
                     }
                     Ok(Ls(v))
                 }
             }
             match syn::parse2::<Ls>(m.mac.tokens.clone()) {
                 Ok(Ls(v)) => {
-                    for (name, ty, init) in v {
+                    for (name, ty, init, is_pub) in v {
+                        if !is_pub {
+                            out.push(Item::Other { text: format!("NOT-PUB static {name}") });
+                        }
                         out.push(Item::Static { name, ty, init, lazy: "lazy_static".into() });
                     }
                 }
